@@ -95,7 +95,7 @@ def design(ctx):
         # long random walks of the contract with every invariant / action property on (the exhaustive part is bounded to 2 calls)
         def sim(g):
             cfg = mc_cfg(ctx, "mcsim_" + g[0], g, 1000)
-            return g, vlib.run_tlc(ctx, MC, cfg, workers=2, timeout=1700, heap="3g", tag="mcsim_" + g[0], simulate=3000, depth=40, seed=ctx.seed + 5)
+            return g, vlib.run_tlc(ctx, MC, cfg, workers=2, timeout=1700, heap="3g", tag="mcsim_" + g[0], simulate=2000, depth=40, seed=ctx.seed + 5)
         with concurrent.futures.ThreadPoolExecutor(max_workers=4) as ex:
             for g, r in ex.map(sim, groups):
                 if r.kind != "ok":
